@@ -165,7 +165,10 @@ pub fn gen_history(rng: &mut Rng, input: &str, hp: &HistParams) -> Vec<Op> {
             Op::AdvanceToPeeked(rng.below(3))
         } else if r < 80 && hp.allow_set_offset {
             have_peek = false;
-            let o = if hp.allow_beyond && rng.chance(1, 8) {
+            let o = if hp.allow_beyond && rng.chance(1, 40) {
+                // "any offset" includes the largest ones
+                *rng.pick(&[usize::MAX, usize::MAX - 1, usize::MAX / 2, 1 << 32, isize::MAX as usize])
+            } else if hp.allow_beyond && rng.chance(1, 8) {
                 input.len() + rng.range(1, 5)
             } else if rng.chance(1, 8) {
                 input.len()
